@@ -1446,7 +1446,7 @@ func backwardCtl(v ssa.Value, visit func(ssa.Value) bool) {
 
 // PathResult is one acyclic path of a loop-free function to a return.
 type PathResult struct {
-	Facts   []Fact                  // symbolic branch decisions, in order
+	Facts   []Fact // symbolic branch decisions, in order
 	Ret     *ssa.Return
 	Resolve func(ssa.Value) ssa.Value // resolves phis along this path
 }
